@@ -139,7 +139,9 @@ def run(ctx):
         txts = [" ".join(T.render(s)) for s in T.root_streams()]
         big = max(txts, key=len) if txts else ""
         n_push = len(re.findall(r":: darling :: export :: Err \( __err \) => \{ __errors \. push \( __err", big))
-        ctx.ob("C02.H.attr-errors-pushed", f.key, "Err arms of the attribute parse", n_push == 2, "%d Err arms push into __errors (need 2): %s" % (n_push, big[:200]))
+        # (two nested matches with an Err arm each, or one match over `first(..).and_then(|__data| second(..).map_err(Error::from))`)
+        chained = n_push == 1 and re.search(r"match [^{]*parse_attribute_to_meta_list \( [^{]* \) \. and_then \( \| __data \| \{? ?[^{]*parse_meta_list \( [^{]* \) \. map_err \( :: darling :: Error :: from \) \}? ?\) \{", big) is not None
+        ctx.ob("C02.H.attr-errors-pushed", f.key, "Err arms of the attribute parse", n_push == 2 or chained, "%d Err arms push into __errors (need 2): %s" % (n_push, big[:200]))
         ctx.ob("C02.H.attr-loop-no-exit", f.key, "no early exit in attribute loop", not re.search(r"\breturn\b|\bbreak\b| \? ", big), "template must not leave the attribute loop early")
 
     # ------------------------------------------------------------ body layer [A]
